@@ -81,6 +81,7 @@ pub fn hir_facts(tcx: TyCtxt<'_>) -> J {
 fn hir_facts_inner(tcx: TyCtxt<'_>) -> J {
 	let mut tables = vec![];
 	let mut unsafes = vec![];
+	let mut tails = vec![];
 	for ldid in tcx.hir_body_owners() {
 		let dk = tcx.def_kind(ldid.to_def_id());
 		if !matches!(dk, DefKind::Fn | DefKind::AssocFn | DefKind::Closure) {
@@ -90,8 +91,25 @@ fn hir_facts_inner(tcx: TyCtxt<'_>) -> J {
 		let typeck = tcx.typeck(ldid);
 		let mut v = V { tcx, typeck, owner: ldid, tables: &mut tables, unsafes: &mut unsafes };
 		v.visit_expr(body.value);
+		// tail expression of the body (what the function evaluates to when it falls through)
+		let mut tail = body.value;
+		loop {
+			match tail.kind {
+				hir::ExprKind::Block(b, _) => match b.expr {
+					Some(e) => tail = e,
+					None => break,
+				},
+				hir::ExprKind::DropTemps(e) => tail = e,
+				_ => break,
+			}
+		}
+		tails.push(
+			J::obj()
+				.set("owner", J::s(path(tcx, ldid.to_def_id())))
+				.set("tail", v.expr_j(tail, 0)),
+		);
 	}
-	J::obj().set("tables", J::Arr(tables)).set("unsafe_blocks", J::Arr(unsafes))
+	J::obj().set("tables", J::Arr(tables)).set("unsafe_blocks", J::Arr(unsafes)).set("tails", J::Arr(tails))
 }
 
 struct V<'a, 'tcx> {
